@@ -70,6 +70,17 @@ Theorem C06_order_refuted_asyncio :
 Proof. exists default_cfg, [OOpen; OTurn; RWelcome 1; OTurn; OLost false; OTurn]. vm_compute. reflexivity. Qed.
 Print Assumptions C06_order_refuted_asyncio.
 
+(* asyncio, lives: WELCOME and the loss of the transport in one loop iteration: the continuation of WELCOME runs on the
+   dead object and sets the session id; nothing clears it, so in its next life the object never says HELLO *)
+Theorem C06_session_id_after_disconnect_refuted_asyncio :
+  exists cfg ops, transport (final Aio cfg ops) = false /\ sid (final Aio cfg ops) = Some 1234
+    /\ ~ In (Sent MHello) (trace Aio cfg (ops ++ [OOpen; OTurn; OTurn])).
+Proof.
+  exists default_cfg, [OOpen; RWelcome 1234; OLost true; OTurn]. vm_compute. repeat split.
+  intro H; repeat (destruct H as [H|H]; try discriminate H); contradiction.
+Qed.
+Print Assumptions C06_session_id_after_disconnect_refuted_asyncio.
+
 (* asyncio, PARTIAL: if the event loop runs until nothing is scheduled after every event (two iterations always
    suffice: [settle] inserts them), the life-cycle events of ANY history are exactly those of Twisted on the same
    history (a missing signature from onChallenge counts as a raising onChallenge: asyncio routes the exception of the
